@@ -122,3 +122,32 @@ L [A 0]]; L [A 20; L [A 0]; L [A 0]]; L [A 32; A 1; A 0; A 1; A 5; L []]; L [A 2
 0]; L [A 0]]; L [A 32; A 2; A 0; A 1; A 5; L []]; L [A 20; L [A 0]; L [A 0]]; L [A 20; L [A 0]; L [A 0]]; L [A 32; A 
 3; A 0; A 1; A 5; L []]; L [A 20; L [A 0]; L [A 0]]; L [A 20; L [A 0]; L [A 0]]; L [A 32; A 4; A 0; A 1; A 5; L []]; 
 L [A 20; L [A 0]; L [A 0]]; L [A 20; L [A 0]; L [A 0]]; L [A 32; A 5; A 0; A 1; A 5; L []]]].
+
+(** [exg] with the read-back of key 0 in the second incarnation altered by hand from "readable, right bytes"
+    to NOT_FOUND: NOT an observation of the code; the replay ignores read-back entries and still accepts it. *)
+Definition exr_obs : sx := L [L [L [A 0; A 0; L [A 1; L []]; L []; L [A 1; L []]; A 0]; L [A 5; A 0; A 0]; L [A 5; A 
+1; A 0]; L [A 20; L [A 0]; L [A 0]]; L [A 19; A 0]; L [A 1; A 0; A 0]; L [A 1; A 0; A 64]; L [A 1; A 0; A 128]; L [A 
+1; A 0; A 192]; L [A 3; A 0; A 20]; L [A 30; A 0; L [A 1]]; L [A 20; L [A 0]; L [A 0]]; L [A 19; A 1]; L [A 4; A 0; A 
+0; A 0; A 1; A 3; A 1000]; L [A 30; A 1; L [A 0; A 0; A 1; A 0]]; L [A 14; A 1; A 10; A 0]; L [A 20; L [A 0]; L [A 2; 
+A 10; A 0]]; L [A 19; A 2]; L [A 30; A 2; L [A 5]]; L [A 20; L [A 0]; L [A 2; A 10; A 0]]; L [A 16; A 10]; L [A 20; L 
+[A 0]; L [A 2; A 10; A 0]]; L [A 15; A 1; A 10]; L [A 8; A 0]; L [A 10; A 1]; L [A 20; L [A 0]; L [A 3; A 1]]; L [A 
+11; A 1]; L [A 9]; L [A 6; A 1; A 1; L [L [A 0; A 20; L []]; L [A 64; A 0; L []]; L [A 128; A 0; L []]; L [A 192; A 
+0; L [A 1000]]]]; L [A 12; A 1; A 1; A 1; L [L [A 0; A 20; L []]; L [A 64; A 0; L []]; L [A 128; A 0; L []]; L [A 
+192; A 0; L [A 1000]]]]; L [A 20; L [A 0]; L [A 1; A 1]]; L [A 13; A 1; A 1]; L [A 7; A 1]; L [A 5; A 1; A 0]; L [A 
+20; L [A 0]; L [A 0]]; L [A 19; A 3]; L [A 30; A 3; L [A 1]]; L [A 20; L [A 0]; L [A 0]]; L [A 19; A 4]; L [A 30; A 
+4; L [A 5]]; L [A 17]; L [A 8; A 0]; L [A 10; A 2]; L [A 20; L [A 0]; L [A 3; A 2]]; L [A 19; A 5]; L [A 30; A 5; L 
+[A 5]]; L [A 11; A 1]; L [A 9]; L [A 8; A 1]; L [A 10; A 3]; L [A 20; L [A 0]; L [A 3; A 3]]; L [A 19; A 6]; L [A 30; 
+A 6; L [A 5]]; L [A 11; A 1]; L [A 9]; L [A 6; A 1; A 1; L [L [A 0; A 20; L []]; L [A 64; A 0; L []]; L [A 128; A 0; 
+L []]; L [A 192; A 0; L [A 1000]]]]; L [A 12; A 1; A 2; A 1; L [L [A 0; A 20; L []]; L [A 64; A 0; L []]; L [A 128; A 
+0; L []]; L [A 192; A 0; L [A 1000]]]]; L [A 20; L [A 0]; L [A 1; A 2]]; L [A 19; A 7]; L [A 30; A 7; L [A 0; A 0; A 
+1; A 0]]; L [A 20; L [A 0]; L [A 1; A 2]]; L [A 19; A 8]; L [A 30; A 8; L [A 5]]; L [A 13; A 1; A 1]; L [A 7; A 1]; L 
+[A 18]; L [A 20; L [A 0]; L [A 4]]; L [A 19; A 9]; L [A 3; A 0; A 24]; L [A 4; A 1; A 1; A 14]; L [A 30; A 9; L [A 0; 
+A 14; A 0; A 1]]; L [A 20; L [A 0]; L [A 4]]; L [A 19; A 10]; L [A 30; A 10; L [A 3]]; L [A 20; L [A 0]; L [A 4]]]; L 
+[L [A 0; A 4; L [A 1; L [L [A 0; A 20; L []]; L [A 64; A 0; L []]; L [A 128; A 0; L []]; L [A 192; A 0; L [A 
+1000]]]]; L [A 1; A 1; A 1; A 1]; L [A 1; L [L [A 0; A 20; L []]; L [A 64; A 0; L []]; L [A 128; A 0; L []]; L [A 
+192; A 0; L [A 1000]]]]; A 0]; L [A 5; A 1; A 0]; L [A 5; A 0; A 0]; L [A 20; L [A 0]; L [A 0]]; L [A 19; A (-1)]; L 
+[A 20; L [A 0]; L [A 0]]; L [A 20; L [A 0]; L [A 0]]; L [A 32; A 0; A 0; A 1; A 5; L []]; L [A 20; L [A 0]; L [A 0]]; 
+L [A 20; L [A 0]; L [A 0]]; L [A 32; A 1; A 0; A 1; A 5; L []]; L [A 20; L [A 0]; L [A 0]]; L [A 20; L [A 0]; L [A 
+0]]; L [A 32; A 2; A 0; A 1; A 5; L []]; L [A 20; L [A 0]; L [A 0]]; L [A 20; L [A 0]; L [A 0]]; L [A 32; A 3; A 0; A 
+1; A 5; L []]; L [A 20; L [A 0]; L [A 0]]; L [A 20; L [A 0]; L [A 0]]; L [A 32; A 4; A 0; A 1; A 5; L []]; L [A 20; L 
+[A 0]; L [A 0]]; L [A 20; L [A 0]; L [A 0]]; L [A 32; A 5; A 0; A 1; A 5; L []]]].
